@@ -36,7 +36,7 @@ def required(tier):
          'directio:on': 20, 'directio:off': 20, 'digitize:on': 30, 'digitize:off': 20, 'multi-file-input': 20, 'length:omitted': 10,
          'length:shorter': 10, 'length:longer': 10, 'aligned-header': 3, 'subblocks>=2': 40,
          'second-recording-flipped-digitize': 30, 'lazy-unit-noise-estimate': 40, 'input:blank-block-or-dead-polarisation': 8,
-         'block>10000-samples-per-stream': 15, 'unused-digitiser-with-other-statistics-settings': 15, 'retry-after-interrupted-recording': 20, 'window:hann': 30, 'window:blackman': 30, 'window:boxcar': 30}
+         'block>10000-samples-per-stream': 15, 'unused-digitiser-with-other-statistics-settings': 15, 'retry-after-interrupted-recording': 20, 'earlier-product-next-to-the-input': 40, 'window:hann': 30, 'window:blackman': 30, 'window:boxcar': 30}
     return {'buckets': b, 'counters': {'decode_blocks_compared': 200, 'gain_calls_observed': 400, 'samples_compared': 50000},
             'checks': 1000, 'nontrivial': 60}
 
@@ -156,6 +156,13 @@ def _run(stg, c, cfg, d, R):
         R.bucket('aligned-header')
     obsn = cfg['nants'] * cfg['nchan']
     in_dec = [guppi.decode_block(b['data'], obsn, cfg['npol'], cfg['bits']) for b in in_blocks]
+    if c['_idx'] % 4 == 2:
+        # history: the product of an EARLIER injection onto this input lies next to it under a stem that extends the input's
+        # ("in.tone.0000.raw" beside "in.0000.raw"); it is another recording, not part of this one
+        R.bucket('earlier-product-next-to-the-input')
+        import shutil as _sh
+        for f_ in in_files:
+            _sh.copy(os.path.join(d, f_), os.path.join(d, 'in.tone.' + f_[len('in.'):]))
     # ---- antenna with the synthetic content
     kw = dict(sample_rate=cfg['sample_rate'], fch1=cfg['fch1'], ascending=cfg['asc'], num_pols=cfg['npol'], seed=c['sub'])
     src = v.Antenna(**kw) if cfg['nants'] == 1 else v.MultiAntennaArray(num_antennas=cfg['nants'], delays=[0] * cfg['nants'], **kw)
